@@ -90,9 +90,10 @@ Cons1 == << ConE(<< RangeA(<< L(IntV(0)) >>, << L(IntV(2)) >>) >>),             
             L(IntV(0)), L(StrV(<< >>)), L(BoolV(TRUE)),                                   \* examples
             ConE(<< RangeA(<< S(n_a) >>, << L(IntV(5)) >>) >>),                           \* in a..5
             ConE(<< RangeA(<< L(StrV(<< "a" >>)) >>, << L(IntV(5)) >>) >>),               \* in "a"..5: not numeric
-            ConE(<< ShapeA(S(n_a)), ShapeA(L(BoolV(FALSE))) >>) >>                        \* a | false
+            ConE(<< ShapeA(S(n_a)), ShapeA(L(BoolV(FALSE))) >>),                          \* a | false
+            S(n_a), S(n_b) >>                                                             \* a name: an example, or a named constraint
 LitsCon == << IntV(0), IntV(1), IntV(3), StrV(<< "a" >>), BoolV(FALSE) >>
-FamCon == {"lit", "var", "let", "conlet", "badlet"}
+FamCon == {"lit", "var", "let", "conlet", "constmt", "badlet"}
 
 (* ---- literal pools ---- *)
 LitsSmall == << IntV(0), IntV(1), IntV(2), BoolV(TRUE), BoolV(FALSE), StrV(<< "a" >>), Null >>
